@@ -7,6 +7,8 @@
     op 4 Select  gasRequested maxNum [ [addr nonce balance] ... ] [guarded hashes] -> 1=[hashes] 2=gas
     op 5 Judge   gasRequested maxNum accounts guarded [result hashes] accGas
                  -> 20=all result hashes pooled 21=C01 22=distinct 23=count 24=gas 25=guard 26=balance
+    op 6 JudgeViews CountTx NumBytes CountSenders Keys [lists] afterAdd -> 30=C05 on the implementation's views
+                 31=C06 count clauses on them (after an AddTx) 32=C05 on the model's own views
     views after every op: 10=CountTx 11=NumBytes 12=CountSenders 13=sorted Keys
                           14=[per alphabet sender: [hashes in list order]]
     model only: 900=n4 while some sender is over a per-sender limit (finding F4) *)
@@ -15,12 +17,13 @@ From Verif Require Import Base.Generic Base.BStr Txcache.TxTypes Txcache.SenderL
 Import ListNotations.
 Open Scope N_scope.
 
-Record pstate := mkPState { ps_cfg : config; ps_alpha : list bytes; ps_pool : pool }.
+Record pstate := mkPState { ps_cfg : config; ps_alpha : list bytes; ps_pool : pool;
+  ps_known : list (bytes * tx) (* every transaction ever handed to AddTx: hash -> content *); ps_last : Z (* size of the last added tx *) }.
 
 Definition pool_init (args : list garg) : option pstate :=
   let cfg := mkConfig (arg_bool (nth_arg args 0)) (arg_Z (nth_arg args 1)) (arg_Z (nth_arg args 2))
                       (arg_Z (nth_arg args 3)) (arg_Z (nth_arg args 4)) (N.to_nat (arg_N (nth_arg args 5))) in
-  Some (mkPState cfg (map arg_B (arg_L (nth_arg args 7))) empty_pool).
+  Some (mkPState cfg (map arg_B (arg_L (nth_arg args 7))) empty_pool [] 0%Z).
 
 Definition decode_tx (args : list garg) : tx :=
   mkTx (arg_B (nth_arg args 0)) (arg_B (nth_arg args 1)) (arg_N (nth_arg args 2)) (arg_N (nth_arg args 3))
@@ -53,12 +56,12 @@ Definition pool_step (s : pstate) (code : N) (args : list garg) : pstate * list 
   match code with
   | 1 => let t := decode_tx args in
          let '(p', added) := add_tx cfg p t in
-         let s' := mkPState cfg (ps_alpha s) p' in
+         let s' := mkPState cfg (ps_alpha s) p' ((hash t, t) :: ps_known s) (size t) in
          (s', (1, GL [g_bool true; g_bool added]) :: views s')
   | 2 => let '(p', removed) := remove_tx p (arg_B (nth_arg args 0)) in
-         let s' := mkPState cfg (ps_alpha s) p' in
+         let s' := mkPState cfg (ps_alpha s) p' (ps_known s) (ps_last s) in
          (s', (1, g_bool removed) :: views s')
-  | 3 => let s' := mkPState cfg (ps_alpha s) (clear p) in (s', views s')
+  | 3 => let s' := mkPState cfg (ps_alpha s) (clear p) (ps_known s) (ps_last s) in (s', views s')
   | 4 => let sess := decode_session (nth_arg args 2) (nth_arg args 3) in
          let '(txs, gas) := select_txs p sess (arg_N (nth_arg args 0)) (N.to_nat (arg_N (nth_arg args 1))) in
          (s, (1, g_listB (map hash txs)) :: (2, g_N gas) :: views s)
@@ -73,6 +76,12 @@ Definition pool_step (s : pstate) (code : N) (args : list garg) : pstate * list 
                   (23, g_bool (c02_countb maxNum result)); (24, g_bool (c02_gasb gasReq acc result));
                   (25, g_bool (c02_guardb sess result)); (26, g_bool (c02_balanceb sess result))])
          end
+  | 6 => (* judge the IMPLEMENTATION's views: CountTx NumBytes CountSenders Keys [per alphabet sender: hashes] afterAdd *)
+         let lists := combine (ps_alpha s) (map (fun l => map arg_B (arg_L l)) (arg_L (nth_arg args 4))) in
+         let v := mkViews (map arg_B (arg_L (nth_arg args 3))) lists (arg_Z (nth_arg args 0)) (arg_Z (nth_arg args 1)) (arg_Z (nth_arg args 2)) in
+         let own := mkViews (keys p) (map (fun a => (a, map hash (pool_for_sender p a))) (ps_alpha s)) (cntTx p) (numBytes p) (cntSenders p) in
+         (s, [(30, g_bool (c05_viewsb (ps_known s) v)); (31, g_bool (negb (arg_bool (nth_arg args 5)) || c06_viewsb cfg (ps_last s) v));
+              (32, g_bool (c05_viewsb (ps_known s) own))])
   | _ => (s, [])
   end.
 
